@@ -209,6 +209,11 @@ theorem invR_step (c0 : Cfg) (s s' : PSys) (e : Event) (hV : InvV c0 (vsys s)) (
       have := hI.dak i m hm.1
       exact ⟨this.1, fun _ => this.2⟩
     · cases h
+  | read r =>
+    simp only [applyEvent, ok] at h
+    split at h
+    · cases h; exact ⟨hI.own, hI.pim, hI.dak, hI.rq, hI.ak⟩
+    · cases h
   | win i cfg q =>
     simp only [applyEvent, ok] at h
     split at h
